@@ -25,7 +25,7 @@
     _multivalued_fields tables (Files, Checksums-*: property C12). *)
 From Coq Require Import String.
 From Verif Require Import Lib.Base Lib.Dec Lib.PyStr Gen.PyChars
-  Deb822.Model Deb822.Spec Deb822.ProofsStr Deb822.ProofsConsume Deb822.Proofs Deb822.ProofsMore Deb822.ProofsGpgMv.
+  Deb822.Model Deb822.Spec Deb822.ProofsStr Deb822.ProofsConsume Deb822.Proofs Deb822.ProofsMore Deb822.ProofsGpgMv Deb822.ProofsGpgMv2.
 
 (** 0. dump() writes the Policy lines of the paragraph: "Name: first" (no blank
        after the colon when the first line is empty), then the continuation lines. *)
@@ -143,22 +143,23 @@ Proof. exact deb822_init_comments. Qed.
 
 (** 6. The property as one statement: a document of valid blocks, plain or
        clearsigned, with comment lines inserted anywhere ([ls] is any line list
-       whose non-comment lines are the document's), presented in any input form
-       with LF or CRLF line ends, reads back through Deb822.iter_paragraphs as its
-       paragraphs with first lines trimmed. *)
+       whose non-comment lines are the document's - so also whole blocks of
+       comment lines between blank lines), presented in any input form with LF or
+       CRLF line ends, reads back through iter_paragraphs of Deb822, Dsc and
+       Changes, under either strictness, as its paragraphs with first lines
+       trimmed.  (For Dsc/Changes this is the code after the fixes D25: commits
+       33b1652 and 3b20027.) *)
 Theorem C02_roundtrip_any_form :
-  forall ws crlf lead bs ls i,
+  forall c ws crlf lead bs ls i,
     forallb ws_line lead = true -> valid_blocks ws bs = true ->
     forallb no_linebreak ls = true -> filter not_comment ls = doc_lines lead bs ->
     In i (forms_of crlf ls) ->
-    iter_paragraphs CDeb822 ws i = Ok (map (fun b => expected_para (b_para b)) bs).
-Proof. exact roundtrip_any_form. Qed.
+    iter_paragraphs c ws i = Ok (map (fun b => expected_para (b_para b)) bs).
+Proof. exact roundtrip_any_form_any_class. Qed.
 
-(** For Dsc/Changes (and Deb822) without comment lines.  With comments the
-    statement is false for Dsc/Changes: their constructor splits the RAW lines
-    first, so a block of comment lines closed by an empty line is a paragraph of
-    its own that then reads as empty and ends the iteration (see the Example
-    [C02_gpgmv_comment_block]); Check.v's [holds] excludes exactly that shape. *)
+(** Both classes, without comment lines, either strictness (blank lines after
+    the first separator may contain spaces/tabs also under
+    whitespace-separates-paragraphs=False). *)
 Theorem C02_roundtrip_any_form_nocomment :
   forall c ws crlf lead bs i,
     forallb ws_line lead = true -> valid_blocks ws bs = true ->
@@ -166,18 +167,18 @@ Theorem C02_roundtrip_any_form_nocomment :
     iter_paragraphs c ws i = Ok (map (fun b => expected_para (b_para b)) bs).
 Proof. exact roundtrip_any_form_nocomment. Qed.
 
-(** comments_ignored for Dsc/Changes: comment lines before a block's first
-    line, anywhere among the paragraph's lines, among the armour's header and
-    signature lines, and after the document, are ignored - in every input form.
-    ([valid_cblocks]; what it leaves out is the comment-only block closed by a
-    blank line, on which the statement is false.) *)
+(** comments_ignored for Dsc/Changes on line lists: the result is that of the
+    document without the comment lines.  (Unlike [C02_comments_ignored] this is
+    stated for valid documents only: _gpg_multivalued.__init__ delimits the
+    block on the RAW lines, so on malformed input - e.g. a blank line inside a
+    signed payload - a comment line can still change where a block ends; see
+    the Example [C02_dsc_changes_malformed_remark].) *)
 Theorem C02_comments_ignored_dsc_changes :
-  forall ws crlf lead cbs trail i,
-    forallb ws_line lead = true -> valid_cblocks ws cbs = true ->
-    forallb comment_line trail = true ->
-    In i (forms_of crlf (cdoc_lines lead cbs trail)) ->
-    iter_paragraphs CGpgMv ws i = Ok (map (fun cb => expected_para (cb_para cb)) cbs).
-Proof. exact gpgmv_roundtrip_comments. Qed.
+  forall ws lead bs ls,
+    forallb ws_line lead = true -> valid_blocks ws bs = true ->
+    forallb no_linebreak ls = true -> filter not_comment ls = doc_lines lead bs ->
+    iter_lines CGpgMv ws ls = Ok (map (fun b => expected_para (b_para b)) bs).
+Proof. exact iter_lines_gpgmv_comments. Qed.
 
 (** The constructor cls(sequence) on a whole document reads its first paragraph:
     for both classes in every form without comment lines, and for Deb822 with
@@ -197,11 +198,30 @@ Theorem C02_constructor_reads_first_comments :
     deb822_new CDeb822 ws i = Ok (expected_para (b_para b)).
 Proof. exact deb822_new_doc_comments. Qed.
 
-(** 7. The fuel of the model's paragraph loop is never exhausted: [OutOfFuel]
-       is not a possible result of [iter_paragraphs]. *)
+(** ... and for both classes with comment lines anywhere (the str/bytes
+    constructor of Dsc/Changes filters comments before splitting, the list/file
+    constructor after - since D25 with the same result). *)
+Theorem C02_constructor_reads_first_comments_any :
+  forall c ws crlf lead b bs ls i,
+    forallb ws_line lead = true -> valid_blocks ws (b :: bs) = true ->
+    forallb no_linebreak ls = true -> filter not_comment ls = doc_lines lead (b :: bs) ->
+    In i (forms_of crlf ls) ->
+    deb822_new c ws i = Ok (expected_para (b_para b)).
+Proof. exact deb822_new_doc_comments_any. Qed.
+
+(** 7. The fuel of the model's loops (paragraph loop, comment-block loop of
+       Dsc/Changes) is never exhausted: [OutOfFuel] is not a possible result of
+       [iter_paragraphs]. *)
 Theorem C02_no_fuel_error :
   forall c ws i, iter_paragraphs c ws i <> Err OutOfFuel.
 Proof. intros c ws i. exact (iter_lines_no_fuel_error c ws (lines_of i)). Qed.
+
+Theorem C02_no_fuel_error_constructor :
+  forall c ws i, deb822_new c ws i <> Err OutOfFuel.
+Proof.
+  intros c ws i H. destruct (deb822_new_init c ws i) as [c' E]. rewrite E in H.
+  discriminate (init_of_err c' ws _ _ H).
+Qed.
 
 (** * Non-vacuity *)
 
@@ -239,22 +259,24 @@ Example C02_nonvacuous :
              (forms_of true ex_commented) = true.
 Proof. vm_compute. repeat split; try reflexivity; discriminate. Qed.
 
-(** a commented, clearsigned document for Dsc/Changes; a text without final line end *)
-Definition ex_carmor : armor :=
-  mkArmor (dec "") (dec "") (dec "") [dec "Hash: SHA1"; dec "# in the header"] (dec "")
-          [dec "#sig comment"; dec "=AbCd"].
-Definition ex_cblocks : list cblock :=
-  [mkCBlock ex_d2 [dec "# before"; dec "#"] (dec "#c1" :: para_lines ex_d2 ++ [dec "#c2"]) (Some ex_carmor) [];
-   mkCBlock ex_d1 [dec "#again"] (firstn 2 (para_lines ex_d1) ++ dec "#-----END PGP SIGNATURE-----" :: skipn 2 (para_lines ex_d1))
-            None [dec ""]].
+(** Dsc/Changes on the same commented document (it begins with a block of
+    comment lines closed by blank lines); strictness False with a comment line, a
+    whitespace-only line and an empty line between paragraphs; a text without
+    final line end; the constructor *)
+Definition ex_blocks2 : list block := [mkBlock ex_d2 None [dec ""; dec " "; dec ""]; mkBlock ex_d1 None []].
+Definition ex_commented2 : list str :=
+  dec "#a" :: dec "" :: para_lines ex_d2 ++ dec "" :: dec "#b" :: dec " " :: dec "#c" :: dec "" :: para_lines ex_d1.
 
 Example C02_nonvacuous_dsc_changes :
-  valid_cblocks false ex_cblocks = true
-  /\ forallb comment_line [dec "# the end"] = true
-  /\ forallb (fun i => result_eqb (list_eqb (list_eqb (pair_eqb str_eqb str_eqb)))
-                         (iter_paragraphs CGpgMv false i)
-                         (Ok [expected_para ex_d2; expected_para ex_d1]))
-             (forms_of false (cdoc_lines [dec ""] ex_cblocks [dec "# the end"])) = true
+  forallb (fun i => result_eqb (list_eqb (list_eqb (pair_eqb str_eqb str_eqb)))
+                         (iter_paragraphs CGpgMv true i)
+                         (Ok [expected_para ex_d1; expected_para ex_d2; expected_para ex_d1]))
+             (forms_of false ex_commented) = true
+  /\ valid_blocks false ex_blocks2 = true
+  /\ filter not_comment ex_commented2 = doc_lines [dec ""] ex_blocks2
+  /\ forallb no_linebreak ex_commented2 = true
+  /\ iter_lines CGpgMv false ex_commented2 = Ok [expected_para ex_d2; expected_para ex_d1]
+  /\ deb822_new CGpgMv false (InLines ex_commented2) = Ok (expected_para ex_d2)
   /\ forallb no_linebreak (para_lines ex_d1 ++ para_lines ex_d2) = true
   /\ forallb (fun i => result_eqb (list_eqb (list_eqb (pair_eqb str_eqb str_eqb)))
                          (iter_paragraphs CGpgMv true i)
@@ -263,13 +285,25 @@ Example C02_nonvacuous_dsc_changes :
   /\ deb822_new CGpgMv true (InLines (doc_lines ex_lead ex_blocks)) = Ok (expected_para ex_d1).
 Proof. vm_compute. repeat split; reflexivity. Qed.
 
-(** The stated limit of comments for Dsc/Changes (behaviour of the code, reproduced
-    by the correspondence check): a comment-only block followed by an empty line
-    ends the iteration. *)
-Example C02_gpgmv_comment_block :
-  iter_lines CGpgMv true [dec "#c"; dec ""; dec "K: v"] = Ok []
-  /\ iter_lines CDeb822 true [dec "#c"; dec ""; dec "K: v"] = Ok [[(dec "K", dec "v")]].
+(** The two shapes of defect D25, found by this model and repaired in /repo
+    (33b1652, 3b20027): before, both results for Dsc/Changes stopped early. *)
+Example C02_dsc_changes_comment_blocks :
+  iter_lines CGpgMv true [dec "#c"; dec ""; dec "K: v"] = Ok [[(dec "K", dec "v")]]
+  /\ iter_lines CGpgMv false [dec "K: v"; dec ""; dec "#c"; dec " "; dec ""; dec "L: w"]
+     = Ok [[(dec "K", dec "v")]; [(dec "L", dec "w")]].
 Proof. vm_compute. split; reflexivity. Qed.
+
+(** Outside the property's domain (a blank line inside a signed payload is not a
+    valid paragraph): there a comment line before the envelope still changes
+    what Dsc/Changes read from lines - which is why [C02_comments_ignored] (ANY
+    line list) is a theorem for Deb822 only. *)
+Example C02_dsc_changes_malformed_remark :
+  let ls := [dec "-----BEGIN PGP SIGNED MESSAGE-----"; dec ""; dec "A: b"; dec ""; dec "C: d";
+             dec "-----BEGIN PGP SIGNATURE-----"; dec "-----END PGP SIGNATURE-----"] in
+  iter_lines CGpgMv true ls = Ok [[(dec "A", dec "b"); (dec "C", dec "d")]]
+  /\ iter_lines CGpgMv true (dec "#c" :: ls) = Ok [[(dec "A", dec "b")]; [(dec "C", dec "d")]]
+  /\ iter_lines CDeb822 true (dec "#c" :: ls) = Ok [[(dec "A", dec "b"); (dec "C", dec "d")]].
+Proof. vm_compute. repeat split; reflexivity. Qed.
 
 Print Assumptions C02_dump_lines.
 Print Assumptions C02_dump_parse_para.
@@ -288,4 +322,6 @@ Print Assumptions C02_roundtrip_any_form_nocomment.
 Print Assumptions C02_comments_ignored_dsc_changes.
 Print Assumptions C02_constructor_reads_first.
 Print Assumptions C02_constructor_reads_first_comments.
+Print Assumptions C02_constructor_reads_first_comments_any.
 Print Assumptions C02_no_fuel_error.
+Print Assumptions C02_no_fuel_error_constructor.
